@@ -36,6 +36,10 @@ fn corpus(tier: Tier) -> Vec<(String, PProblem)> {
         let step = (candidates.len() / per.max(1)).max(1);
         out.extend(candidates.into_iter().step_by(step).take(per).map(|p| (name.to_string(), p)));
     }
+    // required breaks: acceptance only (the oracle does not replay the schedule around a break taken on the road)
+    let req = family_reqbreak();
+    let step = tier.pick(4, 1);
+    out.extend(req.into_iter().step_by(step).map(|p| ("reqbreak".to_string(), p)));
     out
 }
 
@@ -306,7 +310,10 @@ fn twin_split(problem: &PProblem, cfg: &SolveCfg) -> Option<Mutant> {
 fn judge_pair(family: &str, problem: &PProblem, cfg: &SolveCfg, report: &mut Report) {
     let Ok(solved) = solve(problem, cfg, None, None) else { return };
     let tol = if family == "scale" { 1. } else { 0. };
-    let base_findings = oracle::check(problem, &solved.json, &OracleOptions { tol });
+    let mut base_findings = oracle::check(problem, &solved.json, &OracleOptions { tol });
+    if family == "reqbreak" {
+        base_findings.retain(|f| f.rule.starts_with("C02:") || f.rule.starts_with("C01:required-break") || f.rule == "C01:capacity");
+    }
     if !base_findings.is_empty() {
         // not a valid solution by the oracle (a C01-C03 matter): not part of the corpus
         report.add_count("pairs_skipped_invalid_by_oracle", 1);
@@ -351,6 +358,9 @@ fn judge_pair(family: &str, problem: &PProblem, cfg: &SolveCfg, report: &mut Rep
         Err(e) => report.violation(Violation::new(format!("checker-error:{family}"), e, scen.clone())),
     }
     // rejection
+    if family == "reqbreak" {
+        return;
+    }
     let mut all_mutants = mutants(problem, &solved.json);
     all_mutants.extend(twin_split(problem, cfg));
     for m in all_mutants {
